@@ -29,12 +29,13 @@ def pick_shapes(tier, seed, L=2, I=2, family='OO', kind='BTree', quick_extra=10,
     core = shapes.stratify(c5, L, I)
     c6, st6 = cat(family, 'c', kind, 6, L, I)
     core6 = [s for s in shapes.stratify_large(c6, L, I) if s not in core]
-    # four-level shapes only exist from six keys on: the SMALLEST N=6 shapes with the deep features
-    core6 += [s for s in shapes.stratify(c6, L, I, want={'depth4', 'two_nonfirst_steps_first_leaf_1', 'nonfirst_bottom_first_leaf_1'})
-              if s not in core and s not in core6]
-    out = [('core', s, c5[s]) for s in core] + [('core', s, c6[s]) for s in core6]
+    # four-level shapes only exist from six keys on: the SMALLEST N=6 shapes with the deep features.  They carry their
+    # own tag: the generators give 'core' shapes extra (expensive) obligations, which explode on four-level trees
+    deep = [s for s in shapes.stratify(c6, L, I, want={'depth4', 'two_nonfirst_steps_first_leaf_1', 'nonfirst_bottom_first_leaf_1'})
+            if s not in core and s not in core6]
+    out = [('core', s, c5[s]) for s in core] + [('core', s, c6[s]) for s in core6] + [('deep', s, c6[s]) for s in deep]
     stats = {'catalogue_N5': st5, 'catalogue_N6': st6, 'L': L, 'I': I}
-    chosen = set(core) | set(core6)
+    chosen = set(core) | set(core6) | set(deep)
     if tier == 'quick':
         rest = sorted((s for s in c5 if s not in chosen), key=repr)
         rnd = random.Random(seed)
@@ -568,14 +569,17 @@ def cmpfail_obligations(pid, tier, seed):
                                     args=args, pre=['0 <= op < %d' % nops] + F, params=P, timeout=t))
     # the same fault raised as ValueError / KeyError / TypeError / IndexError / AttributeError (classes the library catches
     # internally for its own purposes): leaves and the smallest multi-leaf shapes
-    import os as _os
-    for ob in (list(obs) if _os.environ.get('VERIF_C14_EXC') else []):       # not registered yet: findings to be triaged first
+    multi = sorted({ob['params']['tpl'] for ob in obs if 'tpl' in ob['params'] and len(shapes.leaves(ob['params']['tpl'])) >= 2},
+                   key=lambda t_: (shapes.n_ranks(t_), len(repr(t_)), repr(t_)))[:(2 if tier == 'quick' else 6)]
+    for ob in list(obs):
         P = ob['params']
-        small = ('n' in P) or (shapes.n_ranks(P['tpl']) <= (3 if tier == 'quick' else 4) and '/core/' in ob['id'])
+        small = (P.get('n') in (1, 3)) or (P.get('tpl') in multi and '/core/' in ob['id'])
         if small and P['group'] in ('write', 'del', 'read', 'range'):
-            obs.append(dict(ob, id=ob['id'] + '/exc', args=ob['args'] + [('ec', 'int')], pre=ob['pre'] + ['0 <= ec < 5']))
+            # one argument key, fault index <= 12 (these containers make fewer comparisons than that)
+            obs.append(dict(ob, id=ob['id'] + '/exc', args=[a_ for a_ in ob['args'] if a_[0] != 'y'] + [('ec', 'int')],
+                            pre=[p_ for p_ in ob['pre'] if ' f ' not in p_] + ['1 <= f <= 12', '0 <= ec < 5']))
     bounds.update(failing_comparison_index='1..40; indices beyond the comparisons an operation makes are its fault-free path', per_condition_timeout_s=t,
-                  exception_classes='CmpError (a plain Exception subclass) everywhere; on leaves and the smallest core shapes also subclasses of '
+                  exception_classes='CmpError (a plain Exception subclass) everywhere; on leaves of 1 and 3 keys and the two smallest multi-leaf core shapes also subclasses of '
                                     'ValueError, KeyError, TypeError, IndexError, AttributeError (solver-chosen)')
     return {'obligations': obs, 'bounds': bounds}
 
@@ -750,7 +754,7 @@ def iter_obligations(pid, tier, seed):
         for kind, tag, tpl, hist, L, I in sh:
             m = shapes.n_ranks(tpl)
             is_set = kind == 'TreeSet'
-            if tpl[0] == 'E' or tag != 'core' and quick:
+            if tpl[0] == 'E' or tag not in ('core', 'deep') and quick:
                 continue
             if m > (5 if not quick else (3 if is_set else 4)):
                 continue
